@@ -1,7 +1,7 @@
 (* Extraction of the executable model and oracles.  ExtrOcamlBasic only: numbers stay
    the extracted inductives (positive / N / Z / nat). *)
 From Coq Require Import ExtrOcamlBasic ZArith.
-From ZV Require Import Str Dec Rx RegexSrc Sanitize SanitizeSpec SemVer Pep440 Calendar Timestamp Zerv Render Convert Bump Ron Cli Hash Flow Template Git PyApi PyApiGen Pep440Nf.
+From ZV Require Import Str Dec Rx RegexSrc Sanitize SanitizeSpec SemVer Pep440 Calendar Timestamp Zerv Render Convert Bump Ron RonRead Cli Hash Flow Template Git PyApi PyApiGen Pep440Nf.
 Extraction Language OCaml.
 Extraction "Extract/model.ml"
   N.div N.modulo N.add N.mul Z.add
@@ -20,7 +20,7 @@ Extraction "Extract/model.ml"
   Zerv.schema_validate Zerv.default_prec Zerv.comp_value Zerv.comp_expanded Render.semver_of_zerv Render.pep_of_zerv Render.schema_with_zerv Render.fixed_schema
   Convert.render_cmd Convert.zerv_of_semver Convert.zerv_of_pep Convert.parse_version Convert.format_zerv
   Bump.apply_component_processing Bump.prec_order Cli.version_zerv Cli.version_output Cli.to_zerv Cli.validate_args Cli.resolve_args
-  Ron.zerv_ron Ron.obj_insert Str.is_ascii
+  Ron.zerv_ron Ron.obj_insert Ron.ron_string RonRead.ron_string_document RonRead.ron_read_string Str.is_ascii
   Template.ctx_of_zerv Template.fn_hash Template.fn_hash_int Template.fn_prefix Template.fn_prefix_if Template.fn_sanitize_preset Template.fn_sanitize_custom
   Template.fn_format_timestamp Template.template_finish Template.pre_label_long Template.pre_label_code Zerv.short_hash Zerv.s_true Zerv.s_false
   PyApi.py_argv PyApiGen.py_version_base PyApiGen.py_version_table PyApiGen.py_flow_base PyApiGen.py_flow_table PyApiGen.py_check_base PyApiGen.py_check_table
